@@ -255,8 +255,9 @@ def evalGeom (g : Geom) : Eval :=
   let cabs := match model with | some c => rmax (rabs c.x) (rabs c.y) | none => 0
   let tol := 16 * uRound * (n : Rat) * kappa * kr * (maxAbs coords + diamBound coords + cabs)
   let skip :=
-    if polys.any polyNearTie || (trisOf g).any triNearTie then some "near-tie-area"
-    else if !as.isEmpty && w = 0 then some "zero-total-weight"
+    -- (the exactly-zero total weight first: there a non-finite result is what 0/0 gives, whatever else is near a tie)
+    if !as.isEmpty && w = 0 then some "zero-total-weight"
+    else if polys.any polyNearTie || (trisOf g).any triNearTie then some "near-tie-area"
     else none
   { g := g, coords := coords, model := model, spec := centroidSpec lenD g, tol := tol,
     topDim := maxDim as, kappa := kappa,
